@@ -5,6 +5,8 @@ import (
 	"context"
 	"net"
 	"sync"
+	"sync/atomic"
+	"syscall"
 
 	"github.com/plgd-dev/go-coap/v3/message"
 	"github.com/plgd-dev/go-coap/v3/message/pool"
@@ -27,7 +29,9 @@ type UDPSess struct {
 	OnWrite func(raw []byte)
 	// FailWrites makes WriteMessage return an error (after logging nothing).
 	FailWrites error
-	Mcast      [][]byte
+	// FailNext makes the next n writes fail with a transient network error (nothing reaches the wire); later writes work.
+	FailNext atomic.Int64
+	Mcast    [][]byte
 }
 
 func NewUDPSess() *UDPSess {
@@ -84,6 +88,9 @@ func (s *UDPSess) Run(*client.Conn) error {
 func (s *UDPSess) WriteMessage(req *pool.Message) error {
 	if s.FailWrites != nil {
 		return s.FailWrites
+	}
+	if s.FailNext.Load() > 0 && s.FailNext.Add(-1) >= 0 {
+		return syscall.ENETUNREACH
 	}
 	data, err := req.MarshalWithEncoder(coder.DefaultCoder)
 	if err != nil {
